@@ -30,9 +30,10 @@ Definition int_digits (base : Z) (s : str) : option Z :=
 
 Definition py_int (base : Z) (s : str) : option Z :=
   match s with
-  | 45 :: t => option_map Z.opp (int_digits base t)
-  | 43 :: t => int_digits base t
-  | _ => int_digits base s
+  | [] => None
+  | c :: t => if c =? 45 then option_map Z.opp (int_digits base t)
+              else if c =? 43 then int_digits base t
+              else int_digits base s
   end.
 
 (* ---- str(n), bin(n)[2:], hex(n)[2:] ---------------------------------------------- *)
@@ -73,7 +74,10 @@ Fixpoint assocZ {A} (k : Z) (l : list (Z * A)) : option A :=
    error codes are the ordinals of the raises of _convert_verilog_str: 2 = not two parts,
    3 = 's' (signed) marker, 4 = IndexError/ValueError inside the try. *)
 Definition verilog_parse (val : str) : res (bool * Z * Z) :=
-  let '(neg, val1) := match val with 45 :: t => (true, t) | _ => (false, val) end in
+  let '(neg, val1) := match val with
+                      | c :: t => if c =? 45 then (true, t) else (false, val)
+                      | [] => (false, val)
+                      end in
   match split_on 39 (map lower val1) [] with
   | [ws; sval] =>
       match py_int 10 ws with
